@@ -446,7 +446,43 @@ def _gen_cases(tier, seed):
         ok, why = validate(d)
         if ok:
             cases.append({"k": "rnd", "d": d})
+    for d in prio_designs():
+        cases.append({"k": "rnd", "d": d})
+    # structural tie of the AssignmentList lowering models (emit_value, emit_assignment_list) to the real code:
+    # the same designs again, compared on the shape of every emitted process and on every emit_value result
+    rnd = [c["d"] for c in cases if c["k"] == "rnd" and not c["d"].get("mem")]
+    nal = 150 if not thorough else 1500
+    for d in rnd[-len(prio_designs()):] + rnd[:nal]:
+        cases.append({"k": "al", "d": d})
     return cases
+
+
+def prio_designs():
+    """a signal assigned under an If / Switch and LATER unconditionally over its full width (the later one wins),
+    comb and sync, in the top module and in a submodule; and the usual default-first style"""
+    out = []
+    for dom in ("comb", "sync"):
+        for sub in (False, True):
+            for later_first in (False, True):
+                sigs = [{"w": 1, "sg": False, "init": 0, "rl": False}, {"w": 4, "sg": False, "init": 0, "rl": False},
+                        {"w": 4, "sg": False, "init": 0, "rl": False}, {"w": 4, "sg": False, "init": 3, "rl": False},
+                        {"w": 4, "sg": False, "init": 5, "rl": False}]
+                cond = [["if", [[["s", 0], [["as", ["s", 3], ["s", 1]], ["as", ["sl", ["s", 4], 1, 3], ["sl", ["s", 1], 0, 2]]]]], None]]
+                unc = [["as", ["s", 3], ["s", 2]], ["as", ["s", 4], ["s", 2]]]
+                stmts = unc + cond if later_first else cond + unc
+                mods = [{"parent": None, "name": "m0", "blocks": []}]
+                if sub:
+                    mods.append({"parent": 0, "name": "m1", "blocks": [[dom, stmts]]})
+                else:
+                    mods[0]["blocks"].append([dom, stmts])
+                stim = []
+                for cv, a, b_ in ((1, 9, 6), (0, 2, 7), (1, 1, 14), (1, 15, 0)):
+                    stim.append(["data", [[["s", 0], cv], [["s", 1], a], [["s", 2], b_]]])
+                    stim.append(["clk", [[0, 1]]])
+                    stim.append(["clk", [[0, 0]]])
+                out.append({"sigs": sigs, "doms": [{"name": "sync", "rst": "none"}], "mods": mods, "ins": [0, 1, 2],
+                            "outs": [3, 4], "rename": False, "mem": None, "stim": stim})
+    return out
 
 
 # =============================================================================================== building
@@ -632,9 +668,184 @@ def validate(d):
     return True, ""
 
 
+# =============================================================================================== AssignmentList tie
+class _Ids:
+    """nets -> small numbers: constants 0 / 1, every other net 2 + order of first appearance"""
+    def __init__(self):
+        self.ids = {}
+
+    def net(self, n):
+        n = int(n)
+        if n in (0, 1):
+            return n
+        if n not in self.ids:
+            self.ids[n] = len(self.ids) + 2
+        return self.ids[n]
+
+    def nets(self, v):
+        return [self.net(n) for n in v]
+
+
+PATCODE = {"0": 0, "1": 1, "-": 2}
+
+
+def al_extract(d):
+    """run the real front half (_ir.NetlistEmitter) on the design and collect
+       - the Match table and every AssignmentList cell (inputs of rtlil.emit_assignment_list), in module order,
+       - for every driver chunk (and two shifted sub-chunks): the inputs and the REAL result of NetlistDriver.emit_value"""
+    from amaranth.hdl import _ir, _nir, _ast
+    from amaranth.hdl._ir import Fragment
+    B = build(d)
+    design = Fragment.get(B.top, None).prepare(ports=B.ports, hierarchy=("top",))
+    netlist = _nir.Netlist()
+    emitter = _ir.NetlistEmitter(netlist, design)
+    emitter.emit_fragment(design.fragment, None)
+    ids = _Ids()
+    midx = {}
+    tab = []
+    for ci, cell in enumerate(netlist.cells):
+        if isinstance(cell, _nir.Match):
+            midx[ci] = len(tab)
+            tab.append(cell)
+
+    def cnd(net):
+        net = _nir.Net.ensure(net)
+        if net == _nir.Net.from_const(1):
+            return (0, 0)
+        if net.is_cell and net.cell in midx:
+            return (midx[net.cell] + 1, net.bit)
+        raise ValueError(f"condition net {net!r} is neither const 1 nor a Match output")
+
+    def ser_assigns(assigns):
+        return [(cnd(a.cond), a.start, ids.nets(a.value)) for a in assigns]
+
+    tab_s = [(cnd(m.en), ids.nets(m.value), [[[PATCODE[ch] for ch in p] for p in pl] for pl in m.patterns]) for m in tab]
+    cells = []
+    for module in netlist.modules:
+        for ci in module.cells:
+            cell = netlist.cells[ci]
+            if isinstance(cell, _nir.AssignmentList):
+                cells.append((ids.nets(cell.default), ser_assigns(cell.assignments)))
+    calls, results = [], []
+    for sig, sig_drivers in emitter.drivers.items():
+        w = len(sig)
+        for driver in sig_drivers.values():
+            mask = 0
+            for a in driver.assignments:
+                for bit in range(a.start, min(w, a.start + len(a.value))):
+                    mask |= 1 << bit
+            chunks = []
+            pos = 0
+            while pos < w:
+                if mask >> pos & 1:
+                    end = pos
+                    while mask >> end & 1:
+                        end += 1
+                    chunks.append((pos, end))
+                    pos = end
+                else:
+                    pos += 1
+            if len(sig_drivers) == 1:
+                chunks.append((0, w))
+            if w >= 2:
+                chunks += [(1, w), (0, w - 1)]
+            if w >= 4:
+                chunks.append((1, w - 1))
+            if driver.domain is None:
+                sigdef = [(sig.init >> bit) & 1 for bit in range(w)]
+            else:
+                sigdef = ids.nets(emitter.emit_signal(sig))
+            for cs, ce in dict.fromkeys(chunks):
+                n0 = len(netlist.cells)
+                value = driver.emit_value(emitter, cs, ce)
+                if len(netlist.cells) == n0:
+                    res = (ids.nets(value), [])
+                else:
+                    cell = netlist.cells[-1]
+                    assert isinstance(cell, _nir.AssignmentList) and len(netlist.cells) == n0 + 1
+                    res = (ids.nets(cell.default), ser_assigns(cell.assignments))
+                calls.append((cs, ce, sigdef, ser_assigns(driver.assignments)))
+                results.append(res)
+    return tab_s, cells, calls, results
+
+
+def enc_proc_body(body):
+    """shape of a process body read from the RTLIL text (the `switch {}` wrappers of _emit_process_contents spliced)"""
+    out = []
+    n = 0
+    for s in body:
+        if s[0] == "assign":
+            lhs = s[1]
+            if lhs == []:
+                out += [0, 0, 0]          # zero-width assignment: the text does not show its offset
+            elif len(lhs) != 1 or lhs[0][0] != "w":
+                raise ValueError("assignment target is not one wire chunk")
+            else:
+                out += [0, lhs[0][2], lhs[0][3]]
+            n += 1
+        elif len(s) > 3 and s[3]:
+            if len(s[2]) != 1 or s[2][0][0]:
+                raise ValueError("malformed `switch {}` wrapper")
+            k, enc = enc_proc_body(s[2][0][1])
+            out += enc
+            n += k
+        else:
+            out += [1, sum(c[1] if c[0] == "c" else c[3] for c in s[1]), len(s[2])]
+            for pats, b2 in s[2]:
+                out.append(len(pats))
+                for p in pats:
+                    out += [len(p)] + [PATCODE[ch] for ch in p]
+                k, enc = enc_proc_body(b2)
+                out += [k] + enc
+            n += 1
+    return n, out
+
+
+def al_real(d):
+    import rtlil_read as R
+    B, text, where = convert(d)
+    mods = R.parse(text)
+    out = []
+    for m in mods:
+        for it in m.items:
+            if isinstance(it, R.Process):
+                out += enc_proc_body(it.body)[1] + [-5]
+    out.append(-9)
+    tab_s, cells, calls, results = al_extract(d)
+    for dflt, kept in results:
+        out += dflt + [-7]
+        for (ck, cb), start, v in kept:
+            out += [ck, cb, start, len(v)] + v
+        out.append(-8)
+    return out
+
+
+def _zl(xs):
+    return "[" + "; ".join(z(x) for x in xs) + "]"
+
+
+def _assigns_t(l):
+    return "[" + "; ".join(f"({z(c[0])}, {z(c[1])}, {z(st)}, {_zl(v)})" for c, st, v in l) + "]"
+
+
+def al_term(d):
+    tab_s, cells, calls, results = al_extract(d)
+    tab_t = "[" + "; ".join(
+        f"({z(en[0])}, {z(en[1])}, {_zl(sel)}, [" + "; ".join("[" + "; ".join(_zl(p) for p in pl) + "]" for pl in pats) + "])"
+        for en, sel, pats in tab_s) + "]"
+    cells_t = "[" + "; ".join(f"({_zl(dflt)}, {_assigns_t(l)})" for dflt, l in cells) + "]"
+    calls_t = "[" + "; ".join(f"({z(cs)}, {z(ce)}, {_zl(sd)}, {_assigns_t(l)})" for cs, ce, sd, l in calls) + "]"
+    return f"k_al\n {tab_t}\n {cells_t}\n {calls_t}"
+
+
 # =============================================================================================== harness interface
 def run_impl(c):
     d = c["d"]
+    if c["k"] == "al":
+        try:
+            return al_real(d)
+        except Exception as e:
+            return [-1, sum(map(ord, type(e).__name__))]
     try:
         B, text, where = convert(d)
         skip = {i for i, wh in enumerate(where) if wh is None}
@@ -648,12 +859,19 @@ def run_impl(c):
     for r in rows:
         out.append(0)
         out.extend(r)
+    if shift_alt(d):
+        out = out + [-6] + out
     return out
 
 
 def coq_term(c):
     import rtlil_read as R
     d = c["d"]
+    if c["k"] == "al":
+        try:
+            return al_term(d)
+        except Exception as e:
+            return f"[-1; {sum(map(ord, type(e).__name__))}]"
     try:
         B, text, where = convert(d)
     except Exception as e:
@@ -700,7 +918,7 @@ def coq_term(c):
             raise R.RtlilError(f"top module has no output port {pname}")
         extra_obs.append((top.windex[wn], len(sig)))
     port_t = "[" + "; ".join(f"([], {wi}%nat, {ww})" for wi, ww in extra_obs) + "]"
-    return f"k_run\n {doc}\n {obs_t}\n {port_t}\n {init_ins}\n [" + ";\n  ".join(steps) + "]"
+    return f"k_run {blit(shift_alt(d))}\n {doc}\n {obs_t}\n {port_t}\n {init_ins}\n [" + ";\n  ".join(steps) + "]"
 
 
 def classify(c):
@@ -710,6 +928,8 @@ def classify(c):
         return "op:" + (t[1] if t[0] in ("o1", "o2") else t[0])
     if c["k"] == "f7":
         return "f7:witness"
+    if c["k"] == "al":
+        return "al:mods%d" % len(d["mods"])
     nm = len(d["mods"])
     dep = 0
     for md in d["mods"]:
@@ -729,13 +949,29 @@ def classify(c):
 def nontrivial(c, obs):
     if not obs or obs[0] == -1:
         return False
+    if c["k"] == "al":
+        return 1 in obs[:obs.index(-9)] if -9 in obs else False      # some process has a switch
     d = c["d"]
+    if shift_alt(d):
+        obs = obs[:len(obs) // 2]
     n = len(d["stim"]) + 1
     if len(obs) % n:
         return False
     k = len(obs) // n
     rows = [obs[i * k:(i + 1) * k] for i in range(n)]
     return any(r != rows[0] for r in rows)
+
+
+def shift_alt(d):
+    """does the design contain a part-select of a signed value that can reach above the operand?  Then the model
+    answers twice: under the reading of $shift in force, and (after -6) under the other one"""
+    shapes = [[x["w"], x["sg"]] for x in d["sigs"]]
+    pred = lambda t: has_signed_part(t, shapes)
+    if any(stmts_have(st, pred) for md in d["mods"] for _, st in md["blocks"]):
+        return True
+    mm = d.get("mem")
+    return bool(mm and any(pred(e) for e in [mm["waddr"], mm["wdata"], mm["wen"]] +
+                           [x for r in mm["reads"] for x in (r["addr"], r["en"])]))
 
 
 def _rows(c, l):
@@ -749,14 +985,25 @@ def _rows(c, l):
 def known_finding(c, obs, model):
     """F7: the first diverging row is a data step that raises the reset of an async-reset domain (no clock edge in
     that step).  SHIFT: the design contains a part-select of a signed value that can reach above the operand
-    (emitted as $shift with A_SIGNED, whose published meaning is a logical shift)."""
+    (emitted as $shift with A_SIGNED, whose published meaning is a logical shift) AND the emitted RTLIL agrees with
+    the simulator on every row when $shift is read the other way (second half of the model's answer)."""
     d = c["d"]
+    if c["k"] == "al":
+        return None
+    alt = shift_alt(d)
+    if alt:
+        if len(obs) != len(model) or len(obs) % 2 == 0 or obs[len(obs) // 2] != -6 or model[len(obs) // 2] != -6:
+            return None
+        h = len(obs) // 2
+        obs, model, model_alt = obs[:h], model[:h], model[h + 1:]
     ro, rm = _rows(c, obs), _rows(c, model)
     if ro is None or rm is None or len(ro) != len(rm):
         return None
     first = next((j for j in range(len(ro)) if ro[j] != rm[j]), None)
     if first is None:
         return None
+    if alt and model_alt == obs:
+        return SHIFT_ID
     if first >= 1:
         rst = [0] * len(d["doms"])
         for j, (kind, sets) in enumerate(d["stim"], 1):
@@ -767,14 +1014,6 @@ def known_finding(c, obs, model):
                     if j == first and d["doms"][tgt[1]]["rst"] == "async" and v == 1 and rst[tgt[1]] == 0:
                         return F7_ID
                     rst[tgt[1]] = v
-    shapes = [[x["w"], x["sg"]] for x in d["sigs"]]
-    blocks = [st for md in d["mods"] for _, st in md["blocks"]]
-    pred = lambda t: has_signed_part(t, shapes)
-    if any(stmts_have(st, pred) for st in blocks):
-        return SHIFT_ID
-    mm = d.get("mem")
-    if mm and any(pred(e) for e in [mm["waddr"], mm["wdata"], mm["wen"]] + [x for r in mm["reads"] for x in (r["addr"], r["en"])]):
-        return SHIFT_ID
     return None
 
 
@@ -797,12 +1036,16 @@ def extra(tier, seed, findings):
     cases = gen_cases(tier, seed)
     comparisons = 0
     steps = 0
+    n_al = sum(1 for c in cases if c["k"] == "al")
     for c in cases:
+        if c["k"] == "al":
+            continue
         d = c["d"]
         nobs = len(d["sigs"]) + len(d["outs"]) + (2 * len(d["mem"]["reads"]) if d.get("mem") else 0)
         comparisons += (len(d["stim"]) + 1) * nobs
         steps += len(d["stim"])
-    cov = {"programs": len(cases), "disagreements_checked": comparisons, "stimulus_steps": steps,
+    cov = {"programs": len(cases) - n_al, "disagreements_checked": comparisons, "stimulus_steps": steps,
+           "assignment_list_tie_designs": n_al,
            "rtlil_cell_histogram": dict(CELL_HIST), "rtlil_modules": MOD_COUNT[0],
            "layer": "B = per-design translation validation (vm_compute of RtlilSem.run on the emitted text); "
                     "A = the theorems of Props/C04.v"}
